@@ -119,6 +119,33 @@ theorem C05_definition_order_independent {α : Type} (abbr : Bool) (specs specs'
     addAll_eq_keysOf specs' [] (by simpa using disjoint_perm hp' hd)]
   simpa using findArg_perm abbr _ _ hp' hd k hk
 
+/-- **A refused definition leaves no trace in the history.**  For every history of `addArgument( spec)` calls
+    (refused ones included, exception caught or not): a call that is not accepted at its place can be removed
+    from the history without changing the table — every later definition is accepted or refused, and every later
+    lookup answers, as if the refused call had never been made.  LABEL: the content is the definition of `addAll`
+    (a refusal returns no table, the caller keeps the old one); that the REAL classes leave nothing behind is what
+    the correspondence run checks — the keys harness repeats every refused attempt of a case on each real
+    `Handler` it builds (plain and sub-group container, seeded change C05-5: the refused argument stayed
+    registered in one container while the other one refused it). -/
+theorem C05_refused_definition_leaves_no_trace {α : Type} (t : List (Key × α)) (pre post : List (List Char × α))
+    (s : List Char × α) (h : ∀ t', addArgumentSpec (addAll t pre) s.1 s.2 ≠ .ok t') :
+    addAll t (pre ++ s :: post) = addAll t (pre ++ post) := by
+  unfold addAll at *
+  rw [List.foldl_append, List.foldl_append, List.foldl_cons]
+  congr 1
+  split
+  · rename_i t' ht; exact absurd ht (h t')
+  · rfl
+
+/-- the hypothesis is met by a real history: `o,out` defined, then `o,other` (clashes in the short key) is
+    refused, and the later definition `other` is accepted as if that call had not been made -/
+example : addArgumentSpec (addAll ([] : List (Key × Nat)) [("o,out".toList, 0)]) "o,other".toList 1
+      = .throw .invalid_argument ∧
+    addAll ([] : List (Key × Nat)) [("o,out".toList, 0), ("o,other".toList, 1), ("other".toList, 2)]
+      = addAll [] [("o,out".toList, 0), ("other".toList, 2)] ∧
+    (addAll ([] : List (Key × Nat)) [("o,out".toList, 0), ("other".toList, 2)]).length = 2 := by
+  refine ⟨?_, ?_, ?_⟩ <;> rfl
+
 /-! ### on the command line
 
   `classifyWord`/`cmdKey`/`cmdLookup` model how `Handler::evalSingleArgument` gets from a key word
